@@ -374,6 +374,15 @@ func check(id, tier string, only int) int {
 	if evals > 0 && float64(inconcCount) > cfg.MaxInconclusivePct/100*float64(evals+inconcCount) {
 		inconclusiveReasons = append(inconclusiveReasons, fmt.Sprintf("%d of %d cases inconclusive", inconcCount, evals+inconcCount))
 	}
+	if pc, ok := notes["planned_cases"].(float64); ok && only < 0 {
+		begun := counters["cases_begun"]
+		if nb := len(cfg.ExtraBuilds) + 1; nb > 1 {
+			begun /= int64(nb)
+		}
+		if float64(begun) < 0.98*pc {
+			inconclusiveReasons = append(inconclusiveReasons, fmt.Sprintf("only %d of %d planned cases were begun (a child stopped early?)", begun, int64(pc)))
+		}
+	}
 	if int64(len(distinct))+distinctExtra < 2 && only < 0 {
 		inconclusiveReasons = append(inconclusiveReasons, "fewer than 2 distinct non-trivial cases")
 	}
@@ -381,7 +390,7 @@ func check(id, tier string, only int) int {
 	if only >= 0 {
 		inconclusiveReasons = nil
 	}
-	if exit == 0 && len(inconclusiveReasons) > 0 {
+	if len(inconclusiveReasons) > 0 {
 		for _, r := range inconclusiveReasons {
 			fmt.Printf("INCONCLUSIVE property=%s %s\n", id, r)
 		}
@@ -744,15 +753,15 @@ func scanRaceLogs(bdir string) ([]mon.Violation, int) {
 			for _, sec := range splitRaceSections(blk) {
 				for _, m := range anyRaceFrame.FindAllStringSubmatch(sec, -1) {
 					fn := m[1]
-					if !strings.Contains(fn, "/") && !strings.HasPrefix(fn, "verif/") || strings.HasPrefix(fn, "internal/") || strings.HasPrefix(fn, "golang.org/x/") {
-						if !strings.HasPrefix(fn, "github.com/") {
-							continue // runtime, sync, maps ... : look further down
-						}
-					}
+					// the innermost frame that is dapr/kit or harness code owns the access
+					// (runtime, standard library and third-party frames above it are skipped)
 					if strings.HasPrefix(fn, "github.com/dapr/kit/") {
 						frames = append(frames, strings.TrimPrefix(fn, "github.com/dapr/kit/"))
+						break
 					}
-					break
+					if strings.HasPrefix(fn, "verif/") {
+						break
+					}
 				}
 			}
 			if len(frames) == 0 {
